@@ -419,6 +419,72 @@ func (p *Prog) CallsNear(fn *ssa.Function, callee Callee) []ssa.CallInstruction 
 	return nil
 }
 
+// CallsNearAll: the calls of callee in fn and its closures AND those in the same-package helpers fn calls statically (two
+// levels): for rules that must hold for every such call, wherever a refactoring put it.
+func (p *Prog) CallsNearAll(fn *ssa.Function, callee Callee) []ssa.CallInstruction {
+	if fn == nil {
+		return nil
+	}
+	out := CallsDeep(fn, callee)
+	seen := map[*ssa.Function]bool{fn: true}
+	level := []*ssa.Function{fn}
+	for depth := 0; depth < 2; depth++ {
+		var next []*ssa.Function
+		for _, f := range level {
+			for _, g := range WithAnons(f) {
+				for _, b := range g.Blocks {
+					for _, in := range b.Instrs {
+						ci, ok := in.(ssa.CallInstruction)
+						if !ok {
+							continue
+						}
+						h := ci.Common().StaticCallee()
+						if h == nil || seen[h] || len(h.Blocks) == 0 || !p.InModule(h) || h.Parent() != nil || h.Pkg == nil || fn.Pkg == nil || h.Pkg != fn.Pkg {
+							continue
+						}
+						seen[h] = true
+						next = append(next, h)
+						out = append(out, CallsDeep(h, callee)...)
+					}
+				}
+			}
+		}
+		level = next
+	}
+	return out
+}
+
+// ArgIsAll: like ArgIs, over the calls in fn and in the same-package helpers it calls (CallsNearAll).
+func (r *Report) ArgIsAll(id string, fn *ssa.Function, callee Callee, idx int, pat VPat, min int) {
+	rule := fmt.Sprintf("ARG: argument %d of every call of %s — in the function and in the helpers of its package that it calls — is %s", idx, callee.Desc, pat.Desc)
+	if fn == nil {
+		r.Lost(id, rule, "anchored function not found")
+		return
+	}
+	key := id + " @ " + r.P.FuncName(fn)
+	calls := r.P.CallsNearAll(fn, callee)
+	r.Sites += len(calls)
+	if min == 0 {
+		min = 1
+	}
+	if len(calls) < min {
+		r.Lost(key, rule, fmt.Sprintf("%d call site(s), expected >= %d", len(calls), min))
+		return
+	}
+	for _, c := range calls {
+		a := CallArg(c.Common(), idx)
+		undo := r.P.BindHelperParams(fn, c)
+		ok := a != nil && pat.M(a)
+		desc := AccessPath(a, 0)
+		undo()
+		if !ok {
+			r.Bad(key, rule, r.P.Pos(c.Pos()), "argument is "+desc)
+			return
+		}
+	}
+	r.OK(key, rule, r.P.Pos(fn.Pos()), fmt.Sprintf("%d call site(s)", len(calls)), true)
+}
+
 // BindHelperParams: when call instruction ci sits in a helper h that caller calls exactly once (directly), make h's
 // parameters stand for the arguments of that call (for value patterns and access paths); returns the undo function.
 func (p *Prog) BindHelperParams(caller *ssa.Function, ci ssa.CallInstruction) func() {
@@ -471,4 +537,84 @@ func BindParams(h *ssa.Function, call *ssa.Call) func() {
 			delete(paramSubst, prm)
 		}
 	}
+}
+
+// EveryPath: every path from the entry of fn to a return executes an instruction matching pred (the instruction
+// post-dominates the entry): "fn always does X", whatever its arguments.
+func (r *Report) EveryPath(id string, fn *ssa.Function, what string, pred func(ssa.Instruction) bool) {
+	rule := "ORDER: every path through the function executes [" + what + "]"
+	if fn == nil {
+		r.Lost(id, rule, "anchored function not found")
+		return
+	}
+	key := id + " @ " + r.P.FuncName(fn)
+	blocked := map[*ssa.BasicBlock]bool{}
+	n := 0
+	for _, b := range fn.Blocks {
+		for _, in := range b.Instrs {
+			if pred(in) {
+				blocked[b] = true
+				n++
+			}
+		}
+	}
+	r.Sites += n
+	if n == 0 {
+		r.Bad(key, rule, r.P.Pos(fn.Pos()), "no such instruction in the function")
+		return
+	}
+	if blocked[fn.Blocks[0]] {
+		r.OK(key, rule, r.P.Pos(fn.Pos()), "in the entry block", true)
+		return
+	}
+	for b := range Reach(fn.Blocks[0], nil, blocked) {
+		if len(b.Succs) != 0 {
+			continue
+		}
+		if ret, ok := b.Instrs[len(b.Instrs)-1].(*ssa.Return); ok {
+			r.Bad(key, rule, r.P.Pos(ret.Pos()), "this return is reachable without executing ["+what+"]")
+			return
+		}
+	}
+	r.OK(key, rule, r.P.Pos(fn.Pos()), fmt.Sprintf("%d site(s), on every path", n), true)
+}
+
+// FieldStoredIs: every store to field typ.field (typ by name, any package) inside fn and its closures stores a value
+// matching pat; at least min such stores exist.
+func (r *Report) FieldStoredIs(id string, fn *ssa.Function, typ, field string, pat VPat, min int) {
+	rule := fmt.Sprintf("ARG: the value stored in %s.%s is %s", typ, field, pat.Desc)
+	if fn == nil {
+		r.Lost(id, rule, "anchored function not found")
+		return
+	}
+	key := id + " @ " + r.P.FuncName(fn)
+	n := 0
+	for _, f := range WithAnons(fn) {
+		for _, b := range f.Blocks {
+			for _, in := range b.Instrs {
+				st, ok := in.(*ssa.Store)
+				if !ok {
+					continue
+				}
+				fa, ok := st.Addr.(*ssa.FieldAddr)
+				if !ok || !fieldNameIs(fa.X.Type(), fa.Field, typ, field) {
+					continue
+				}
+				n++
+				if !pat.M(st.Val) && !pat.M(stripConv(st.Val)) {
+					r.Bad(key, rule, r.P.Pos(st.Pos()), "the stored value is "+AccessPath(st.Val, 0))
+					return
+				}
+			}
+		}
+	}
+	r.Sites += n
+	if min == 0 {
+		min = 1
+	}
+	if n < min {
+		r.Lost(key, rule, fmt.Sprintf("%d store(s), expected >= %d", n, min))
+		return
+	}
+	r.OK(key, rule, r.P.Pos(fn.Pos()), fmt.Sprintf("%d store(s)", n), true)
 }
